@@ -11,7 +11,7 @@ TOK = {
     "esc_unres_up": ["%41", "%7E", "%2D", "%5F", "%30", "%7A"],
     "esc_unres_lo": ["%7e", "%2d", "%6a", "%5f"],
     "esc_dot": ["%2E", "%2e"],
-    "raw_nonascii": ["é", "ж", "中", "😀", "٣", "４"],
+    "raw_nonascii": ["é", "ж", "中", "😀", "٣", "４", "\u200c", "\u00ad", "\ufeff", "\u200b", "\u2060"],
     "esc_utf8_up": ["%C3%A9", "%D0%B6", "%E4%B8%AD", "%F0%9F%98%80"],
     "esc_utf8_lo": ["%c3%a9", "%d0%b6", "%e4%b8%ad", "%f0%9f%98%80", "%C3%aB", "%c3%Ab"],
     "space_raw": [" "],
@@ -44,6 +44,7 @@ IDN_LABELS = ["é", "münchen", "中文", "пример", "café", "ελ"]
 for _l in IDN_LABELS:  # stable under Python's IDNA codec, else the *harness* would be wrong
     assert _l.encode("idna").decode("idna") == _l, _l
 ASCII_LABELS = ["example", "lemonde", "a", "b2", "my-site", "x", "shop", "news", "blog", "test1"]
+NONCANONICAL_ACE = ["xn--example-", "xn--a-", "xn--paypal-", "XN--b-"]   # valid punycode, not canonical A-labels: must not be decoded
 TLDS = ["com", "fr", "org", "co.uk", "net", "de", "io"]
 SCHEMES = ["http", "https", "HTTP", "hTtPs", "Https"]
 
@@ -106,8 +107,10 @@ def hosts(draw, idn=True, upper=True, max_sub=2, tlds=TLDS, labels=ASCII_LABELS)
     labs = [draw(st.sampled_from(labels)) for _ in range(n + 1)]
     out = []
     for l in labs:
-        form = draw(st.sampled_from(["ascii"] * 6 + (["idn", "puny", "PUNY"] if idn else [])))
-        if form == "ascii":
+        form = draw(st.sampled_from(["ascii"] * 6 + (["idn", "puny", "PUNY", "badace"] if idn else [])))
+        if form == "badace":
+            out.append(draw(st.sampled_from(NONCANONICAL_ACE)))
+        elif form == "ascii":
             if upper and draw(st.integers(0, 4)) == 0:
                 l = draw(st.sampled_from([l.upper(), l.capitalize()]))
             out.append(l)
